@@ -24,7 +24,7 @@ func TestC04Audit(t *testing.T) {
 		runOneHistory(r, bases, &h, true)
 		return
 	}
-	n := pick(260, 5000)
+	n := pick(500, 5000)
 	for i := 0; i < n; i++ {
 		hg := genHistory(rng.Fork(fmt.Sprint("h", i)), c01Starts, 12, i%3 != 0)
 		if !mine(i) {
